@@ -96,7 +96,7 @@ def ul(tier):
     def units():
         # selection by alignment signature (vlib.list_signature), fixed and seed-independent
         # quick: a stratified sample; thorough: EVERY list without a VaryingSize parameter (their fill model is tiny)
-        # and one list per fine signature of those with one
+        # and one list per fine signature of those with one (every fourth signature for the three-parameter lists)
         if tier == 'quick':
             sel = [('pairs', False, True, 1, False, 1), ('pairs2', False, True, 3, False, 1),
                    ('triples', False, True, 16, False, 2),
@@ -105,7 +105,7 @@ def ul(tier):
         else:
             sel = [('pairs', True, True, 1, True, 1), ('pairs2', True, True, 1, True, 1), ('triples', True, True, 1, True, 1),
                    ('pairs', True, False, 1, False, 1), ('pairs2', True, False, 1, False, 1),
-                   ('triples', True, False, 1, False, 1), ('pairs3', True, None, 1, True, 1)]
+                   ('triples', True, False, 4, False, 1), ('pairs3', True, None, 1, True, 1)]
         out = []
         seen = set()
         picked = [d for name, fine, cheap, every, everything, reps in sel
